@@ -598,9 +598,11 @@ impl Arena {
       let next_node = next.load(Ordering::Acquire);
       let (next_node_size, next_next_offset) = decode_segment_node(next_node);
       if next_node_size == REMOVED_SEGMENT_NODE {
-        // the remover either unlinks the next node from `current` or restores it,
-        // so `current` must be read again: once unlinked, the removed node keeps its mark.
+        // the remover either unlinks the next node or restores it, and once unlinked the removed node keeps its
+        // mark: walk again from the head. The word the caller gets for its CAS must be the one this traversal
+        // walked over, a word read later could belong to a node that has been recycled somewhere else in the list.
         backoff.snooze();
+        current = &header.sentinel;
         current_node = current.load(Ordering::Acquire);
         (current_node_size, next_offset) = decode_segment_node(current_node);
         continue;
@@ -663,8 +665,9 @@ impl Arena {
 
       if check(val, next_node_size) {
         if next_node_size == REMOVED_SEGMENT_NODE {
-          // see `find_position`: read `current` again, the removed node keeps its mark once it is unlinked.
+          // see `find_position`: walk again from the head, the removed node keeps its mark once it is unlinked.
           backoff.snooze();
+          current = &header.sentinel;
           current_node = current.load(Ordering::Acquire);
           (current_node_size, next_offset) = decode_segment_node(current_node);
           continue;
